@@ -422,6 +422,10 @@ def check_dhtv_copy(run, A):
 
 def check(run):
     A = run.A
+    from ..opt import check_optional_truthiness, check_params_reach, check_forwarding
+    check_forwarding(run, A, ('pb_bss.permutation_alignment',))
+    check_params_reach(run, A, ('pb_bss.permutation_alignment',))
+    check_optional_truthiness(run, A, ('pb_bss.permutation_alignment',))
     run.explanation = (
         'Bijectivity and purity of permutation alignment decided structurally: apply_mapping is a pure gather; the inline EM alignment is value preserving with one mapping for '
         'affiliation and quadratic form; calculate_mapping of DHTV / greedy / oracle aligners returns columns with permutation provenance (identity start, self-gather by an '
